@@ -54,6 +54,8 @@ def make_problem(seed, exact, nmax, N, kpm=False):
             Ri = R.conj().T
         else:
             R = np.eye(n) + 0.35 * (rs.standard_normal((n, n)) + (1j * rs.standard_normal((n, n)) if cplx else 0))
+            while np.linalg.cond(R) > 30:  # keep the eigenproblem well conditioned (tolerances assume it)
+                R = np.eye(n) + 0.2 * (rs.standard_normal((n, n)) + (1j * rs.standard_normal((n, n)) if cplx else 0))
             Ri = np.linalg.inv(R)
     # levels: explicit blocks around distinct integers, degenerate inside a block with prob 1/2; implicit levels beyond
     bases = rng.sample([-3, -1, 1, 3], nb)
@@ -206,7 +208,7 @@ def _run(ctx, exact, ncases, kpm_cases, as_tie):
         if c < 2:
             samples.append(dict(desc, hermitian=p["hermitian"], complex=p["cplx"], n=p["n"], sizes=p["sizes"], levels=p["levels"], fully=list(p["fully"])))
         if any("raised IndexError" in f for f in fs) and not p["hermitian"] and p["fully"]:
-            # finding D13 (non-Hermitian implicit mode + fully_diagonalize): keep one representative
+            # known finding C06-nh-implicit-fully-diagonalize (non-Hermitian implicit mode + fully_diagonalize): keep one representative
             d13 += 1
             fs = [f for f in fs if "raised IndexError" in f][:1] if d13 == 1 else []
         for f in fs[:2]:
@@ -227,20 +229,95 @@ def tie_implicit(ctx, ncases=None):
 
 
 def oracle_implicit(ctx, ncases=None):
-    return _run(ctx, False, ncases or ctx.n(25, 400), ctx.n(2, 12), False)
+    r = _run(ctx, False, ncases or ctx.n(25, 400), ctx.n(2, 12), False)
+    # the witness of the known finding is always evaluated
+    e, inside = witness_known()
+    r["evaluations"] += 1
+    if e is not None:
+        r["failures"].insert(0, dict(what="U[1,1,(3,)] raised %s: %s (witness of the known finding; inside the implicit diagonal solve: %s)" % (type(e).__name__, e, inside),
+                                     input=dict(oracle="implicit_witness")))
+    return r
+
+
+KNOWN_ID = "C06-nh-implicit-fully-diagonalize"
+
+
+def witness_known():
+    """The minimal witness of the known finding: non-Hermitian implicit mode (direct solver) with
+    fully_diagonalize on the explicit block; U[B,B,3] asks solve_sylvester_direct for the
+    implicit-implicit diagonal block and raises IndexError.  Returns (exception or None, frame info)."""
+    h0 = np.diag([0.0, 2.0, 3.0])
+    h1 = np.array([[1.0, 2, 0], [1, 0, 1], [2, 1, 1]])
+    e0 = np.eye(3)[:, :1]
+    with warnings.catch_warnings():
+        warnings.simplefilter("ignore")
+        Ht, U, Ui = block_diagonalize([sp.csr_array(h0), sp.csr_array(h1)], subspace_eigenvectors=[(e0, e0)], hermitian=False, fully_diagonalize=(0,))
+        try:
+            U[1, 1, 3]
+        except Exception as e:  # noqa: BLE001
+            return e, _implicit_diagonal_solve(e, 1)
+    return None, False
+
+
+def _implicit_diagonal_solve(exc, nb):
+    """True iff the exception was raised inside solve_sylvester_direct's solve_sylvester called
+    with index[0] == index[1] == number of explicit blocks."""
+    tb = exc.__traceback__
+    hit = False
+    while tb is not None:
+        fr = tb.tb_frame
+        if fr.f_code.co_name == "solve_sylvester" and fr.f_code.co_filename.endswith("block_diagonalization.py") and "greens_functions_left" in fr.f_code.co_freevars:
+            idx = fr.f_locals.get("index")
+            if idx is not None and len(idx) >= 2 and idx[0] == nb and idx[1] == nb:
+                hit = True
+        tb = tb.tb_next
+    return hit
+
+
+def _rerun_implicit_exception(p):
+    """Re-run the implicit computation of problem p and return the first exception of a block access."""
+    n, sizes, R, Ri = p["n"], p["sizes"], p["R"], p["Ri"]
+    nb = len(sizes)
+    offs = np.cumsum([0] + sizes)
+    expl = [(R[:, offs[i]:offs[i + 1]], Ri[offs[i]:offs[i + 1], :].conj().T) for i in range(nb)]
+    H = [p["h0"]] + p["hs"]
+    Hs = {(0, 0): sp.csr_array(H[0]), (1, 0): sp.csr_array(H[1]), (0, 1): sp.csr_array(H[2])} if len(H) == 3 else [sp.csr_array(h) for h in H]
+    with warnings.catch_warnings():
+        warnings.simplefilter("ignore")
+        impl = block_diagonalize(Hs, subspace_eigenvectors=expl, hermitian=False, fully_diagonalize=p["fully"])
+        for s in impl:
+            for od in orders(len(H) - 1, p["N"]):
+                try:
+                    s[(nb, nb) + od]
+                except Exception as e:  # noqa: BLE001
+                    return e, nb
+    return None, nb
 
 
 def classify_known(failure):
-    """Known-finding classification: 'D13' for the IndexError of non-Hermitian implicit mode with
-    fully_diagonalize on an explicit block (solve_sylvester_direct asked for the implicit diagonal block)."""
+    """Known-finding classification.  Returns KNOWN_ID only for: hermitian=False, implicit mode with
+    the direct solver, fully_diagonalize non-empty, and an IndexError raised inside
+    solve_sylvester_direct for index[0] == index[1] == number of explicit blocks."""
     inp = failure.get("input") or {}
-    if inp.get("oracle") != "implicit" or "raised IndexError" not in str(failure.get("what")):
+    if "raised IndexError" not in str(failure.get("what")):
         return None
-    p = make_problem(inp["seed"], inp["exact"], inp["nmax"], inp["N"], kpm=inp.get("kpm", False))
-    return "D13" if (not p["hermitian"] and p["fully"]) else None
+    if inp.get("oracle") == "implicit_witness":
+        e, inside = witness_known()
+        return KNOWN_ID if isinstance(e, IndexError) and inside else None
+    if inp.get("oracle") != "implicit" or inp.get("kpm"):
+        return None
+    p = make_problem(inp["seed"], inp["exact"], inp["nmax"], inp["N"], kpm=False)
+    if p["hermitian"] or not p["fully"]:
+        return None
+    e, nb = _rerun_implicit_exception(p)
+    return KNOWN_ID if isinstance(e, IndexError) and _implicit_diagonal_solve(e, nb) else None
 
 
 def replay(inp):
+    if inp.get("oracle") == "implicit_witness":
+        e, inside = witness_known()
+        print("  witness:", "no exception" if e is None else "%s: %s" % (type(e).__name__, e))
+        return 1 if e is not None else 0
     p = make_problem(inp["seed"], inp["exact"], inp["nmax"], inp["N"], kpm=inp.get("kpm", False))
     fs, _ = compare(p, 1e-9 if not p["kpm"] else 1e-2, kpm_atol=1e-4)
     for f in fs:
